@@ -1,0 +1,29 @@
+//go:build verif
+// +build verif
+
+// Machine-checked contracts for package scanner (comment-only; read by /verif/govc).
+
+package scanner
+
+// Long brackets [=*[ ... ]=*] (manual §3.1): while looking for the closing
+// bracket of level n, a `]` that does not complete it may itself be the first
+// character of the real closing bracket, so the automaton restarts at "one `]`
+// seen" (state 0), never at "nothing seen" (state -1).  The case body is
+// extracted verbatim from the closing loop of scanLong.
+//@ fragment long_close_bracket of scanLong at switch#2 c/case ']'
+//@   prop C12
+//@   arith int
+//@   norte
+//@   nocover
+//@   modifies everything()
+//@   exits any
+//@   ensures closeLevel == level ==> !result0
+//@   ensures closeLevel != level ==> result0 && result2 == 0
+
+//@ fragment long_close_equals of scanLong at switch#2 c/case '='
+//@   prop C12
+//@   arith int
+//@   norte
+//@   nocover
+//@   modifies everything()
+//@   ensures result0 && result2 == ite(closeLevel >= 0, closeLevel + 1, closeLevel)
